@@ -143,20 +143,23 @@ func (g *gen) decorate(p *pb.Path) *pb.Path {
 		p.Origin = g.pick([]string{"openconfig", "meta", "x", "*", ""})
 	case x < 5:
 		p.Target = g.pick([]string{"dev1", "*", "other"})
-	case x < 7: // huge key map
+	case x < 6: // huge key map
 		m := map[string]string{}
-		k := 200 + g.rng.Intn(1800)
+		k := 60 + g.rng.Intn(200)
+		if g.chance(10) {
+			k = 2000 + g.rng.Intn(3000)
+		}
 		for i := 0; i < k; i++ {
 			m[fmt.Sprintf("k%d", i)] = fmt.Sprintf("v%d", g.rng.Intn(50))
 		}
 		p.Elem = append(p.Elem, &pb.PathElem{Name: g.pick(plainNames), Key: m})
-	case x < 10: // a few keys, odd ones
+	case x < 9: // a few keys, odd ones
 		e := &pb.PathElem{Name: g.name(), Key: map[string]string{}}
 		for i, k := 0, 1+g.rng.Intn(3); i < k; i++ {
 			e.Key[g.pick([]string{"", "k", "z", "*", "a/b"})] = g.pick([]string{"", "v", "*", "meta", "x/y"})
 		}
 		p.Elem = append(p.Elem, e)
-	case x < 12: // empty element
+	case x < 11: // empty element
 		p.Elem = append(p.Elem, &pb.PathElem{})
 	}
 	return p
